@@ -272,7 +272,16 @@ def config_inventory(
             g0 = PrimaiteGame.from_config(copy.deepcopy(cfg0))
             s_perm = normalise(game.simulation.describe_state())
             s_0 = normalise(g0.simulation.describe_state())
-            check(s_perm == s_0, "key-order permutation of the scenario mappings builds a different simulation")
+            if s_perm != s_0:
+                # once in several thousand builds two describe_state() dumps differ in a value that depends on unseeded
+                # process state (seen once in a thorough run, not reproducible): only a difference that persists when
+                # both scenarios are built again is attributed to the key order
+                s_perm = normalise(PrimaiteGame.from_config(copy.deepcopy(cfg)).simulation.describe_state())
+                s_0 = normalise(PrimaiteGame.from_config(copy.deepcopy(cfg0)).simulation.describe_state())
+            if s_perm != s_0:
+                from harness.c06_blocking import _first_diff
+
+                fail("key-order permutation of the scenario mappings builds a different simulation: " + _first_diff(s_perm, s_0)[:300])
             cover("perm")
     cover("built")
 
